@@ -267,8 +267,8 @@ PROPS = {
         assumptions=["integer-grid coordinates up to 2^20 (squared distances exact)"],
     ),
     "C19": dict(
-        modules=["GeomVerif.Properties.C19", "GeomVerif.Model.Calendar"],
-        n_quick=10000, n_thorough=200000, thorough_seeds=4, min_theorems=9,
+        modules=["GeomVerif.Properties.C19", "GeomVerif.Properties.C19Res", "GeomVerif.Model.Calendar"],
+        n_quick=10000, n_thorough=200000, thorough_seeds=4, min_theorems=12,
         rule="decode: synthetic IGC documents (A record present/absent, BOM/XOFF/other noise before it, CR LF or LF, HFDTE and other H records, "
              "valid and forged I extension tables (wrong start, stop before start, descending/overlapping, truncated), B records valid, truncated, "
              "over-long, shorter than the extensions require, one character corrupted), 1/6 with random byte mutations, 5% pure random bytes. "
